@@ -13,15 +13,49 @@ open PermModel PermLemmas
 
 /-! ## reproducible: the output does not depend on hash iteration order -/
 
-/-- **types** — full names are the keys of the type map, hence pairwise distinct -/
+/-- **Sort key injective.** A declaration site (file, position) belongs to one type; hence, for types that
+all have a declaration and pairwise different *first* declaration sites, the export's sort key
+`(full name, first declaration)` is injective — also for file-private / internal types of several files that
+share a full name. (The harness checks the hypothesis on every generated workspace.) -/
+theorem C35_types_sort_key_injective (l : List TypeDecl)
+    (hne : ∀ t ∈ l, t.locs ≠ [])
+    (nd : (l.map (fun t => t.locs.head?)).Nodup) :
+    ∀ a ∈ l, ∀ b ∈ l, a.key = b.key → a = b := by
+  intro a ha b hb hk
+  apply inj_of_nodup_map (fun t => t.locs.head?) nd ha hb
+  have hna := hne a ha
+  have hnb := hne b hb
+  unfold TypeDecl.key at hk
+  cases hla : a.locs with
+  | nil => exact absurd hla hna
+  | cons x xs =>
+    cases hlb : b.locs with
+    | nil => exact absurd hlb hnb
+    | cons y ys =>
+      obtain ⟨xf, xp⟩ := x
+      obtain ⟨yf, yp⟩ := y
+      rw [hla, hlb] at hk
+      simp only [Prod.mk.injEq] at hk
+      simp [hk.2.2.1, hk.2.2.2]
+
+/-- **types** — the output is the same for every iteration order of the type map, provided the sort key is
+injective on the listed types (`C35_types_sort_key_injective`) -/
 theorem C35_types_perm_invariant (isMain : Nat → Bool) {l₁ l₂ : List TypeDecl} (h : l₁.Perm l₂)
-    (nd : (l₁.map (·.name)).Nodup) : exportTypes isMain l₁ = exportTypes isMain l₂ := by
+    (inj : ∀ a ∈ l₁, ∀ b ∈ l₁, a.key = b.key → a = b) : exportTypes isMain l₁ = exportTypes isMain l₂ := by
   unfold exportTypes
   rw [isort_perm_invariant typeLe typeLe_trans typeLe_total _ h]
   intro a b ha hb hab hba
-  have : a.name = b.name := by
-    unfold typeLe at hab hba; simp only [decide_eq_true_eq] at hab hba; exact Nat.le_antisymm hab hba
-  exact inj_of_nodup_map (·.name) nd ha hb this
+  exact inj a ha b hb (lexLe4_antisymm a.key b.key hab hba)
+
+/-- the defect the tie-break fix removed: sorting by full name only leaves same-named file-private types in
+hash order (two iteration orders of the same two types, different exports) -/
+theorem C35_name_only_witness :
+    ¬ (∀ l₁ l₂ : List TypeDecl, l₁.Perm l₂ →
+        exportTypesNameOnly (fun _ => true) l₁ = exportTypesNameOnly (fun _ => true) l₂) := by
+  intro h
+  have := h [⟨7, 0, [(1, 0)]⟩, ⟨7, 0, [(2, 0)]⟩] [⟨7, 0, [(2, 0)]⟩, ⟨7, 0, [(1, 0)]⟩] (List.Perm.swap _ _ [])
+  revert this
+  decide
 
 /-- **modules** — one module info per file, so (name, file) is distinct -/
 theorem C35_modules_perm_invariant (isMain : Nat → Bool) {l₁ l₂ : List ModuleInfo} (h : l₁.Perm l₂)
@@ -53,7 +87,7 @@ theorem C35_globals_perm_invariant (isMain : Nat → Bool) {l₁ l₂ : List Glo
 theorem C35_unsorted_witness :
     ¬ (∀ l₁ l₂ : List TypeDecl, l₁.Perm l₂ → exportTypesUnsorted (fun _ => true) l₁ = exportTypesUnsorted (fun _ => true) l₂) := by
   intro h
-  have := h [⟨1, 0, [0]⟩, ⟨2, 0, [0]⟩] [⟨2, 0, [0]⟩, ⟨1, 0, [0]⟩] (List.Perm.swap _ _ [])
+  have := h [⟨1, 0, [(0, 0)]⟩, ⟨2, 0, [(0, 0)]⟩] [⟨2, 0, [(0, 0)]⟩, ⟨1, 0, [(0, 0)]⟩] (List.Perm.swap _ _ [])
   revert this
   decide
 
@@ -61,24 +95,25 @@ theorem C35_unsorted_witness :
 
 /-- a type is exported iff it is a class/enum/alias with a declaration in the main workspace -/
 theorem C35_types_member (isMain : Nat → Bool) (l : List TypeDecl) (t : TypeDecl) :
-    t ∈ exportTypes isMain l ↔ t ∈ l ∧ (∃ f ∈ t.locs, isMain f = true) ∧ t.kind < 3 := by
+    t ∈ exportTypes isMain l ↔ t ∈ l ∧ (∃ f ∈ t.locs, isMain f.1 = true) ∧ t.kind < 3 := by
   unfold exportTypes
   simp only [List.mem_filter, mem_isort, List.any_eq_true, decide_eq_true_eq]
   constructor
   · rintro ⟨⟨a, b⟩, c⟩; exact ⟨a, b, c⟩
   · rintro ⟨a, b, c⟩; exact ⟨⟨a, b⟩, c⟩
 
-/-- … and exactly once (its name appears once in the export) -/
-theorem C35_types_once (isMain : Nat → Bool) (l : List TypeDecl) (nd : (l.map (·.name)).Nodup) :
-    ((exportTypes isMain l).map (·.name)).Nodup := by
+/-- … and exactly once: no type (identified by its sort key; full names may repeat for file-private types)
+appears twice -/
+theorem C35_types_once (isMain : Nat → Bool) (l : List TypeDecl) (nd : (l.map (·.key)).Nodup) :
+    ((exportTypes isMain l).map (·.key)).Nodup := by
   unfold exportTypes
-  have h1 : ((isort typeLe l).map (·.name)).Nodup :=
-    (List.Perm.nodup_iff ((isort_perm typeLe l).map (·.name))).mpr nd
+  have h1 : ((isort typeLe l).map (·.key)).Nodup :=
+    (List.Perm.nodup_iff ((isort_perm typeLe l).map (·.key))).mpr nd
   exact List.Nodup.sublist ((List.filter_sublist.trans List.filter_sublist).map _) h1
 
 /-- nothing from library roots or std: every exported type has a main-workspace declaration -/
 theorem C35_types_main_only (isMain : Nat → Bool) (l : List TypeDecl) :
-    ∀ t ∈ exportTypes isMain l, ∃ f ∈ t.locs, isMain f = true :=
+    ∀ t ∈ exportTypes isMain l, ∃ f ∈ t.locs, isMain f.1 = true :=
   fun t h => ((C35_types_member isMain l t).mp h).2.1
 
 /-- a module is exported iff its file is in the main workspace and it exports a value; once per file -/
@@ -130,8 +165,9 @@ theorem C35_globals_complete (isMain : Nat → Bool) (l : List GlobalDecl) (n : 
     exact ⟨⟨hg, hm⟩, ht⟩
 
 /-! Non-vacuity (tests, labelled as such). -/
-example : (exportTypes (fun f => f < 10) [⟨5, 0, [20]⟩, ⟨3, 1, [2]⟩, ⟨1, 0, [30, 4]⟩, ⟨2, 7, [1]⟩, ⟨4, 2, [0]⟩]).map (·.name)
-    = [1, 3, 4] := by decide
+example : (exportTypes (fun f => f < 10) [⟨5, 0, [(20, 0)]⟩, ⟨3, 1, [(2, 5)]⟩, ⟨1, 0, [(30, 1), (4, 1)]⟩, ⟨2, 7, [(1, 0)]⟩, ⟨4, 2, [(0, 9)]⟩,
+    ⟨3, 0, [(1, 7)]⟩, ⟨3, 0, [(1, 2)]⟩]).map (fun t => (t.name, t.locs.head?))
+    = [(1, some (30, 1)), (3, some (1, 2)), (3, some (1, 7)), (3, some (2, 5)), (4, some (0, 9))] := by decide
 example : (exportGlobals (fun f => f < 10) [⟨7, 2, 5, true⟩, ⟨7, 1, 9, true⟩, ⟨3, 20, 0, true⟩, ⟨2, 1, 0, false⟩, ⟨7, 1, 2, true⟩, ⟨1, 3, 3, true⟩])
     = [⟨1, 3, 3, true⟩, ⟨7, 1, 2, true⟩] := by decide
 example : (exportModules (fun f => f < 10) [⟨4, 1, true⟩, ⟨4, 0, true⟩, ⟨2, 11, true⟩, ⟨1, 5, false⟩, ⟨3, 2, true⟩]).map (·.file)
